@@ -357,7 +357,9 @@ fn big_modules() -> Vec<(String, Box<dyn Fn() -> dr::Module + Sync + Send>)> {
         for bodies in 0..8u32 {
             for target in 0..5u32 {
                 for lt in 0..2u32 {
-                    out.push((format!("linked: capabilities {:#05b}, bodies {:#05b}, linkage target {}, linkage type {}", caps, bodies, target, lt), Box::new(move || {
+                    // the header version rotates with the other parameters (1.0, 1.3, 1.4, 1.6 all occur with every target)
+                    let (vmaj, vmin) = [(1u8, 0u8), (1, 3), (1, 4), (1, 6)][((caps + bodies + lt) % 4) as usize];
+                    out.push((format!("linked: version {}.{}, capabilities {:#05b}, bodies {:#05b}, linkage target {}, linkage type {}", vmaj, vmin, caps, bodies, target, lt), Box::new(move || {
                         let mut next = 1000u32;
                         let mut tag = |op: spirv::Op, ops: Vec<dr::Operand>| {
                             next += 1;
@@ -378,9 +380,15 @@ fn big_modules() -> Vec<(String, Box<dyn Fn() -> dr::Module + Sync + Send>)> {
                         for k in &targets {
                             m.annotations.push(tag(spirv::Op::Decorate, vec![dr::Operand::IdRef(fid(*k)), dr::Operand::Decoration(spirv::Decoration::LinkageAttributes), dr::Operand::LiteralString(format!("f{}", k)), dr::Operand::LinkageType(if lt == 0 { spirv::LinkageType::Import } else { spirv::LinkageType::Export })]));
                             m.debug_names.push(tag(spirv::Op::Name, vec![dr::Operand::IdRef(fid(*k)), dr::Operand::LiteralString(format!("f{}", k))]));
-                            m.entry_points.push(tag(spirv::Op::EntryPoint, vec![dr::Operand::ExecutionModel(spirv::ExecutionModel::GLCompute), dr::Operand::IdRef(fid(2 - *k)), dr::Operand::LiteralString("main".into())]));
+                            // the interface names one module-scope variable of each of six storage classes (ids 200..205)
+                            let mut ep = vec![dr::Operand::ExecutionModel(spirv::ExecutionModel::GLCompute), dr::Operand::IdRef(fid(2 - *k)), dr::Operand::LiteralString("main".into())];
+                            ep.extend((200..206u32).map(dr::Operand::IdRef));
+                            m.entry_points.push(tag(spirv::Op::EntryPoint, ep));
                         }
                         m.types_global_values.push(tag(spirv::Op::TypeVoid, vec![]));
+                        for (k, sc) in [spirv::StorageClass::Input, spirv::StorageClass::Output, spirv::StorageClass::Uniform, spirv::StorageClass::Private, spirv::StorageClass::StorageBuffer, spirv::StorageClass::Workgroup].into_iter().enumerate() {
+                            m.types_global_values.push(dr::Instruction::new(spirv::Op::Variable, Some(1001), Some(200 + k as u32), vec![dr::Operand::StorageClass(sc)]));
+                        }
                         for k in 0..3u32 {
                             let mut f = dr::Function::new();
                             f.def = Some(dr::Instruction::new(spirv::Op::Function, Some(1001), Some(fid(k)), vec![dr::Operand::FunctionControl(spirv::FunctionControl::NONE), dr::Operand::IdRef(1001)]));
@@ -395,7 +403,9 @@ fn big_modules() -> Vec<(String, Box<dyn Fn() -> dr::Module + Sync + Send>)> {
                             }
                             m.functions.push(f);
                         }
-                        m.header = Some(dr::ModuleHeader::new(2000));
+                        let mut h = dr::ModuleHeader::new(2000);
+                        h.set_version(vmaj, vmin);
+                        m.header = Some(h);
                         m
                     })));
                 }
@@ -515,6 +525,34 @@ fn check_module(make: &dyn Fn() -> dr::Module, label: &str, rep: serde_json::Val
             let fw: Vec<u32> = f.all_inst_iter_mut().map(|i| i.result_id.unwrap()).collect();
             if fw != ids[a..b] {
                 bad.push(("Function::all_inst_iter_mut".into(), format!("function {} visits {}, its slice is {}", fi, brief(&fw), brief(&ids[a..b]))));
+            }
+        }
+        // the traversals are iterators like any other: nth / skip / step_by / last / count agree with next()
+        {
+            let all: Vec<u32> = m.all_inst_iter().map(|i| i.result_id.unwrap()).collect();
+            for k in 0..all.len().min(40) {
+                if m.all_inst_iter().nth(k).map(|i| i.result_id.unwrap()) != all.get(k).copied() || m.all_inst_iter().skip(k).next().map(|i| i.result_id.unwrap()) != all.get(k).copied() {
+                    bad.push(("all_inst_iter".into(), format!("nth({}) / skip({}) disagrees with stepping by next()", k, k)));
+                    break;
+                }
+            }
+            if m.all_inst_iter().count() != all.len() || m.all_inst_iter().last().map(|i| i.result_id.unwrap()) != all.last().copied() || m.all_inst_iter().step_by(3).map(|i| i.result_id.unwrap()).collect::<Vec<_>>() != all.iter().copied().step_by(3).collect::<Vec<_>>() {
+                bad.push(("all_inst_iter".into(), "count() / last() / step_by(3) disagree with stepping by next()".into()));
+            }
+            let gl: Vec<u32> = m.global_inst_iter().map(|i| i.result_id.unwrap()).collect();
+            if m.global_inst_iter().count() != gl.len() || m.global_inst_iter().step_by(2).map(|i| i.result_id.unwrap()).collect::<Vec<_>>() != gl.iter().copied().step_by(2).collect::<Vec<_>>() || (0..gl.len().min(20)).any(|k| m.global_inst_iter().nth(k).map(|i| i.result_id.unwrap()) != Some(gl[k])) {
+                bad.push(("global_inst_iter".into(), "count() / step_by(2) / nth(k) disagree with stepping by next()".into()));
+            }
+            for (fi, f) in m.functions.iter().enumerate() {
+                let fr: Vec<u32> = f.all_inst_iter().map(|i| i.result_id.unwrap()).collect();
+                let ok = f.all_inst_iter().count() == fr.len()
+                    && f.all_inst_iter().last().map(|i| i.result_id.unwrap()) == fr.last().copied()
+                    && f.all_inst_iter().step_by(2).map(|i| i.result_id.unwrap()).collect::<Vec<_>>() == fr.iter().copied().step_by(2).collect::<Vec<_>>()
+                    && (0..fr.len().min(60)).all(|k| f.all_inst_iter().nth(k).map(|i| i.result_id.unwrap()) == Some(fr[k]) && f.all_inst_iter().skip(k).next().map(|i| i.result_id.unwrap()) == Some(fr[k]));
+                if !ok {
+                    bad.push(("Function::all_inst_iter".into(), format!("function {}: nth / skip / step_by / last / count disagree with stepping by next()", fi)));
+                    break;
+                }
             }
         }
         // assembling = header words ++ assembly of each visited instruction: first on the module as it was made (ids in one
